@@ -101,8 +101,9 @@ Definition aug_R_partial := explore aug_step ALL allowed_partial (200 * 200) [] 
 (* status of clause (c): the unbounded check (finite reachability, sound for all
    lists) and the bounded exhaustive one (all ordered lists of distinct
    geometric names up to length 4) *)
-Definition aug_geo_full_b : bool :=
-  closed aug_step ALL aug_inv all_true aug_R_full &&& st_mem (aug_init, []) aug_R_full.
+Definition aug_check (allowed : list string -> bool) (R : list st) : bool :=
+  closed aug_step ALL aug_inv allowed R &&& st_mem (aug_init, []) R.
+Definition aug_geo_full_b : bool := aug_check all_true aug_R_full.
 
 Definition aug_ok_b (il gl : list string) : bool :=
   match get_aug_config (aug_args (names_arg il) (names_arg gl)) with
@@ -185,7 +186,7 @@ Proof.
 Qed.
 
 Lemma aug_from_reach : forall allowed R,
-  closed aug_step ALL aug_inv allowed R &&& st_mem (aug_init, []) R = true ->
+  aug_check allowed R = true ->
   (forall A n, allowed (canon ALL (n :: A)) = true -> allowed (canon ALL A) = true) ->
   forall il gl,
   Forall (fun n => In n INTENSITY) il -> Forall (fun n => In n GEOMETRIC) gl ->
@@ -195,7 +196,7 @@ Lemma aug_from_reach : forall allowed R,
             (forall n, In n gl -> geo_enabled n s = true) /\
             untouched s = true.
 Proof.
-  intros allowed R C Anti il gl Hi Hg Al. apply andl_true in C. destruct C as [C I0].
+  intros allowed R C Anti il gl Hi Hg Al. unfold aug_check in C. apply andl_true in C. destruct C as [C I0].
   assert (Forall (fun n => In n ALL) (il ++ gl)%list) as F.
   { apply Forall_app. split; eapply Forall_impl; try eassumption; intros a Ha; unfold ALL; apply in_or_app; tauto. }
   destruct (reach_sound aug_step ALL aug_inv allowed R aug_init C I0 Anti (il ++ gl)%list F Al) as [s [Fs Is]].
@@ -235,7 +236,7 @@ Proof.
 Qed.
 
 (* (c), the full clause — live after a repair of F12 *)
-Theorem aug_lists_full : aug_geo_full_b = true ->
+Theorem aug_lists_full : aug_check all_true aug_R_full = true ->
   forall il gl,
   Forall (fun n => In n INTENSITY) il -> Forall (fun n => In n GEOMETRIC) gl ->
   exists s, get_aug_config (aug_args (names_arg il) (names_arg gl)) = Ok s /\
@@ -244,7 +245,7 @@ Theorem aug_lists_full : aug_geo_full_b = true ->
             untouched s = true.
 Proof.
   intros B il gl Hi Hg.
-  apply (aug_from_reach all_true aug_R_full); [exact B | intros; reflexivity | assumption | assumption | reflexivity].
+  exact (aug_from_reach all_true aug_R_full B (fun _ _ _ => eq_refl) il gl Hi Hg eq_refl).
 Qed.
 
 Lemma aug_ok_b_false : forall gl, Forall (fun n => In n GEOMETRIC) gl -> aug_ok_b [] gl = false ->
@@ -260,6 +261,13 @@ Qed.
    geometric names, found by the exhaustive search over ordered lists of
    distinct names up to length 4 on the GENERATED function, for which some named
    option is not enabled *)
+Lemma all_geometric : forall l, forallb (fun n => mem_str n GEOMETRIC) l = true ->
+  Forall (fun n => In n GEOMETRIC) l.
+Proof.
+  intros l F. apply Forall_forall. intros n I. apply mem_str_In.
+  rewrite forallb_forall in F. apply F. exact I.
+Qed.
+
 Theorem aug_lists_refuted : aug_geo_exhaustive4_b = false ->
   exists gl, Forall (fun n => In n GEOMETRIC) gl /\ selector_F12 gl = true /\
     ~ (exists s, get_aug_config (aug_args (names_arg []) (names_arg gl)) = Ok s /\
@@ -269,13 +277,9 @@ Proof.
   first
     [ exfalso; vm_compute in B; discriminate B
     | exists aug_geo_cex; split; [| split];
-      [ apply Forall_forall; intros n I; apply mem_str_In;
-        revert n I; apply Forall_forall; apply forallb_Forall; vm_compute; reflexivity
+      [ apply all_geometric; vm_compute; reflexivity
       | vm_compute; reflexivity
-      | apply aug_ok_b_false;
-        [ apply Forall_forall; intros n I; apply mem_str_In;
-          revert n I; apply Forall_forall; apply forallb_Forall; vm_compute; reflexivity
-        | vm_compute; reflexivity ] ] ].
+      | apply aug_ok_b_false; [ apply all_geometric; vm_compute; reflexivity | vm_compute; reflexivity ] ] ].
 Qed.
 
 (* a single name given as a string is the singleton list *)
